@@ -151,10 +151,10 @@ var props = map[string]*PropSpec{
 	},
 	"C04": {
 		ID:        "C04",
-		Cone:      []ConeItem{{Pkg: ".", Funcs: []string{"scMinimal"}}},
+		Cone:      []ConeItem{{Pkg: ".", Funcs: []string{"scMinimal", "verify", "VerifyBatch", "verifyWithOptionsNoPanic"}}, {Pkg: "internal/modm", Funcs: []string{"reduce", "barrettReduce", "Expand", "Contract"}}},
 		Quick:     twoLayouts,
 		Thorough:  allSix,
-		Technique: "contract-based deductive verification: scMinimal's postcondition result == (S < L) over the real code (loop unrolled with a concrete counter), discharged by z3/cvc5; call sites in verify/VerifyBatch are obligations of C01/C06",
+		Technique: "contract-based deductive verification: scMinimal's postcondition result == (S < L) over the real code (loop unrolled with a concrete counter), discharged by z3/cvc5; its call sites in verify and VerifyBatch (an entry with S >= L is reported false: part of vspec / G1-G2 bookkeeping) and the scalar parsing modm.Expand/reduce (S is used as the integer it encodes, on both limb layouts) are in the cone",
 		Trusted:   []string{"M4 (L is the prime order of B) for the uniqueness reading: two accepted S, S' with equal (key, message, R) satisfy L | 8(S-S'), hence S = S' because both are below L"},
 		Assumptions: []string{"uniqueness of the accepted S is a consequence of S < L together with the verification equation (lemma, M4); it is not a separate obligation"},
 	},
